@@ -95,7 +95,7 @@ def _work(item):
                              "spec_cand": d.get("cand"), "spec_law": d.get("law"), "ev": ev, "obs": obs,
                              "path": _path_to(tree, n) if tree is not None and n > 0 else []})
     # a law of zero width has one value: what its draw returns (the observation point of C07) is the written parameter
-    if tree is not None:
+    if tree is not None and mode != "replay":      # (in replay mode the harness answers the draws itself, with the targets of the TLC behaviour)
         stos = [e for e in mol.elems if not isinstance(e, I.Token)]
         degenerate = all(e.dist is not None and e.dist.fam == "gauss" and float(e.dist.par[1]) == 0.0 for e in stos)
         if degenerate and stos:
